@@ -23,6 +23,7 @@ type EvalCtx struct {
 	pos    token.Pos
 	depth  int
 	atCall bool
+	noUp   bool // lookupLocal: do not search the callers' frames (set while doing exactly that)
 }
 
 type specErr struct{ msg string }
@@ -355,6 +356,39 @@ func (x *Exec) lookupLocal(c *EvalCtx, name string) (Value, bool) {
 				}
 			}
 		}
+		// renamed AND re-typed (e.g. an anonymous struct became a named type): the only live local with a name the
+		// recorded tree did not have and the same kind of type
+		if len(cands) == 0 {
+			if h, ok := localHints[fr.fn.String()][name]; ok {
+				known := localHints[fr.fn.String()]
+				// new names that are plain renames of other recorded locals (same type and ordinal) are taken
+				present := map[string]bool{}
+				for _, a := range namedAllocs(fr.fn) {
+					present[a.Comment] = true
+				}
+				taken := map[*ssa.Alloc]bool{}
+				for oldName, oh := range known {
+					if !present[oldName] && oldName != name {
+						if a := allocByHint(fr.fn, oh); a != nil {
+							taken[a] = true
+						}
+					}
+				}
+				var fresh []*ssa.Alloc
+				for _, a := range namedAllocs(fr.fn) {
+					if _, old := known[a.Comment]; old || taken[a] {
+						continue
+					}
+					if _, live := fr.vals[a]; live && typeKindOf(allocTypeString(a), a) == hintKind(h) {
+						fresh = append(fresh, a)
+					}
+				}
+				if len(fresh) == 1 {
+					cands = append(cands, fresh[0])
+					x.rebound[name+" -> "+fresh[0].Comment+" (renamed and re-typed) in "+shortFn(fnKey(fr.fn))] = true
+				}
+			}
+		}
 		if len(cands) == 0 {
 			// code moved into a helper that has been inlined and has returned: by name, else the only local of
 			// the recorded type among the helpers' locals
@@ -379,6 +413,22 @@ func (x *Exec) lookupLocal(c *EvalCtx, name string) (Value, bool) {
 				}
 			}
 			if hit == nil {
+				// inside an inlined helper: a local of one of the callers on the inline stack
+				if !c.noUp && c.st != nil {
+					idx := -1
+					for i, f := range c.st.frames {
+						if f == fr {
+							idx = i
+						}
+					}
+					for j := idx - 1; j >= 0; j-- {
+						uc := *c
+						uc.fr, uc.noUp = c.st.frames[j], true
+						if v, ok := x.lookupLocal(&uc, name); ok {
+							return v, true
+						}
+					}
+				}
 				return Value{}, false
 			}
 			x.rebound[name+" -> "+hit.name+" (local of an inlined helper) in "+shortFn(fnKey(fr.fn))] = true
